@@ -52,12 +52,12 @@ def main(pid, tier, replay_path=None):
     try:
         with vlib.Scratch('srv') as sc:
             binary = vlib.build_harness(sc, '.', instrumented_pool=True)
-            scs = [json.load(open(replay_path))['scenario']] if replay_path else gen(500 if tier == 'quick' else 12000, seed) + focus(24 if tier == 'quick' else 300, seed) + witnesses()
+            scs = [json.load(open(replay_path))['scenario']] if replay_path else gen(500 if tier == 'quick' else 50000, seed) + focus(24 if tier == 'quick' else 600, seed) + witnesses()
             res, crashed = conn.run_scenarios(sc, binary, scs, 'v', procs=14, test='TestVerifServerScenarios')
             if not replay_path:
                 # single-stall exploration of a sample of the scenarios: one actor held back at one schedule point
                 import random
-                base = scs[:30 if tier == 'quick' else 600]
+                base = scs[:30 if tier == 'quick' else 2000]
                 extra = conn.stall_variants(base, res, per_scenario=40 if tier == 'quick' else 80, rnd=random.Random(seed), skip_actors=())
                 # every schedule point of the focus shapes
                 extra += conn.stall_variants([s for s in scs if s.get('focus')], res, per_scenario=400, rnd=random.Random(seed + 1), skip_actors=())
